@@ -63,6 +63,11 @@ REGISTRY: Dict[str, List[Tuple[Frag, str]]] = {
         _tf("tf_scales", 0, ["size"], target="scales"),
         _tf("tf_one", 0, [], target="one"),
         _tf("tf_minus_one", 1, [], target="offset"),
+        # which size the closed forms read: the ROUNDED `size_tensor()` (a re-gridded grid stores a fractional `_size`)
+    ] + [
+        (Frag(f"tf_size_source{k}", _GRID, "Grid.transform", "assign", {"n": "real"}, target="size", occ=(k, k),
+              rename={"self.size_tensor()": "n"}), "real") for k in range(4)
+    ] + [
         # Grid.transform_vectors, same-grid closed-form path (separate from Grid.transform)
         (Frag("tv_scale_cube", _GRID, "Grid.transform_vectors", "assign", {"size": "real"}, target="scales", occ=(1, 1), rename=_RN_TF), "real"),
         (Frag("tv_scale_corners", _GRID, "Grid.transform_vectors", "assign", {"size": "real"}, target="scales", occ=(2, 2), rename=_RN_TF), "real"),
